@@ -2,12 +2,39 @@
 #   protocol spec: spec/sched/Suspend.tla (m_stack_state hand-shake between the suspending thread and the resumer; liveness under fairness)
 #   abstract spec: SchedAbs (Suspend / Resume / Continue); real tbb::task::suspend / resume scenarios (resume from another task on a thief,
 #   from the suspend callback itself, two suspended units resumed in reverse order) on 2-4 logical threads, validated by TLC.
-import vlib, schedlib
+import os, json, vlib, schedlib
 
 
 def run(res, tier, seed):
     thorough = tier != 'quick'
     vlib.model_check(res, schedlib.SD, 'Suspend', 'Suspend_fair.cfg', deadlock=False)
-    schedlib.run_scenarios(res, 'C20', 'c20', 120 if not thorough else 2000, seed, threads=(1, 2, 3, 4))
+    schedlib.run_scenarios(res, 'C20', 'c20', 120 if not thorough else 2000, seed, threads=(1, 2, 3, 4))     # the 'c20' selection of h_sched includes suspendF3: three suspensions in a row, resumed from a foreign thread, hand-shake words tracked
+    # stacks that migrate between an external thread and a real RML worker (a logical thread as well), three suspensions in a row on the same unit, resumed from
+    # outside the arena: a continuation is explainable only after its resume call (TraceWake: ResS), every run in a fresh process
+    exe = vlib.build_harness('h_wake', ['sync/h_wake.cpp'])
+    os.makedirs(os.path.join(vlib.BUILD, 'traces'), exist_ok=True)
+    cmds = []; tfs = []
+    for k in range(4 if not thorough else 12):
+        tf = os.path.join(vlib.BUILD, 'traces', 'c20-suspW-%d-%d.ndjson' % (k, os.getpid())); tfs.append(tf)
+        cmds.append([exe, tf, 'suspW', str(40 if not thorough else 400), str(seed * 7919 + k * 613), '0'])
+    ps = vlib.run_parallel(cmds, timeout=2500); execs = []
+    for p, tf in zip(ps, tfs):
+        if p is None or p.returncode != 0:
+            raise vlib.HarnessFailure('h_wake suspW failed: %s' % ((p.stdout + p.stderr)[-1500:] if p else 'timeout'))
+        execs += vlib.collect_traces([tf])
+    for t in execs:
+        if any(e['e'] == 'Stuck' and 'blocked' not in e for e in t):
+            raise vlib.HarnessFailure('h_wake child hung outside scheduler control (watchdog)')
+    SDY = os.path.join(vlib.SPEC, 'sync')
+
+    def sig(tr):
+        evs = [e for e in tr if not e['e'].startswith('#')]
+        if any(e['e'] in ('Stuck', 'Crash') for e in evs):
+            return 'suspW:' + next(e['e'].lower() for e in evs if e['e'] in ('Stuck', 'Crash'))
+        i = vlib.first_unexplained(SDY, 'TraceWake', 'TraceWake.cfg', evs, 'c20', linear=True)
+        return 'suspW:first-unexplained=%s' % (evs[i]['e'] if i is not None else '?')
+    vlib.validate_and_report(res, SDY, 'TraceWake', 'TraceWake.cfg', execs, 'c20-suspW',
+                             lambda tr: 'a suspended unit continued before tbb::task::resume was called for that suspension, or the run got stuck (%s): %s' % (sig(tr), json.dumps([e for e in tr if not e['e'].startswith('#')])[:1200]),
+                             batch=200, sig_fn=sig)
     res.exhaustive = False
     res.assumptions += ['real-code schedules sampled (seeded random cooperative); arenas of size 1-4, all slots reserved; the coroutine stack switch happens inside one OS thread']
